@@ -353,8 +353,9 @@ func c17Exec(in *C17Input) (obs *C17Obs) {
 		}
 	}
 	if obs.Unknown {
-		// a name the machine does not know is tracked: the first recorded
-		// transition indexes Time with -1. Show it, then stop.
+		// a name the machine does not know is tracked (ParseStates regression,
+		// code 2:240): the first recorded transition indexes Time with -1.
+		// Show it, then stop.
 		func() {
 			defer func() {
 				if r := recover(); r != nil {
@@ -859,7 +860,7 @@ func c17Gen(r *Rng, shape string) *C17Input {
 		switch r.Intn(3) {
 		case 0: // unknown name, no duplicate: dropped by ParseStates
 			c.Tracked = append(c.Tracked, n+r.Intn(3))
-		case 1: // unknown name and a duplicate
+		case 1: // unknown name and a duplicate: dropped as well (was kept: 2:240)
 			c.Tracked = append(c.Tracked, n+r.Intn(3))
 			if len(c.Tracked) > 1 {
 				c.Tracked = append(c.Tracked, c.Tracked[0])
